@@ -63,12 +63,19 @@ Scen ==
      \*    (immediate stop allowed: without it the sender finishes the first transfer of a removed object)
      [objs |-> << [MkObj(1, 16, 4, 2, 0, 0, TRUE, 1, <<"none", 0>>) EXCEPT !.imm = TRUE], MkObj(2, 8, 4, 2, 5, 1, FALSE, 1, <<"none", 0>>) >>,
       mode |-> "full", slots |-> 1, il |-> 1,
-      script |-> << <<"add", 1>>, <<"publish">>, <<"readn", 4>>, <<"remove", 1>>, <<"add", 2>>, <<"publish">>, <<"drain">> >>] >>
+      script |-> << <<"add", 1>>, <<"publish">>, <<"readn", 4>>, <<"remove", 1>>, <<"add", 2>>, <<"publish">>, <<"drain">> >>],
+     \* 7: FDT instances of 5 seconds renewed by the sender while a carousel object is repeated every 2 seconds for 12 seconds:
+     \*    a receiver (expiry check on) always finds an unexpired instance, also when it joins late
+     [objs |-> << MkObj(1, 8, 4, 2, 0, 0, TRUE, 1, <<"delay", 2>>) >>,
+      mode |-> "full", slots |-> 1, il |-> 1, dur |-> 5,
+      script |-> << <<"add", 1>>, <<"publish">>, <<"drain">>, <<"adv", 3>>, <<"drain">>, <<"adv", 3>>, <<"drain">>, <<"adv", 3>>, <<"drain">>,
+                    <<"adv", 3>>, <<"drain">> >>] >>
 
 \* Variant names a deliberately broken rule of the sender or of the receiver mechanism (vacuity guard)
 SenderVariants == {"no-fdt-gate", "b-every-block", "lifo-queue", "no-start-check", "count-off-by-one", "desc-queues"}
+Dur(sc) == IF "dur" \in DOMAIN sc THEN sc.dur ELSE 3600
 SCfg(sc) == [mode |-> sc.mode, queues |-> << <<0, sc.slots>> >>, interleave |-> sc.il, E |-> 1024, B |-> 8, par |-> 0,
-             fdt_start |-> 1, fdt_dur |-> 3600, fdt_car |-> <<"delay", 2>>, tick_us |-> 1000000,
+             fdt_start |-> 1, fdt_dur |-> Dur(sc), fdt_car |-> <<"delay", 2>>, tick_us |-> 1000000,
              variant |-> IF Variant \in SenderVariants THEN Variant ELSE "ok"]
 
 VARIABLES sc, phase, s, t, pc, draining, wire, chan, pos, r, m, bad
@@ -90,11 +97,11 @@ WirePkt(out, now, i) ==
 
 \* the session as the receiver side sees it, from the final sender state and the wire
 FdtRec(id) == LET c == s.fcontent[id] fs == SetToSeq(c.files) IN
-              [id |-> id, L |-> FdtLen, exp |-> c.t + 3600, files |-> fs, entries |-> [j \in 1..Len(fs) |-> [o |-> fs[j], cache |-> <<"none", 0>>]]]
+              [id |-> id, L |-> FdtLen, exp |-> c.t + Dur(Sc), files |-> fs, entries |-> [j \in 1..Len(fs) |-> [o |-> fs[j], cache |-> <<"none", 0>>]]]
 EmittedIds == {wire[i].id : i \in {j \in 1..Len(wire) : wire[j].k = "fdt"}}
 Sess ==
   [ sid |-> 0, skip |-> "", sender_dead |-> FALSE,
-    cfg |-> [E |-> 1024, B |-> 8, scheme |-> 0, par |-> 0, tsi |-> 1, tick_us |-> 1000000, groups |-> <<>>, fdt_dur |-> 3600, fdt_cenc |-> 0],
+    cfg |-> [E |-> 1024, B |-> 8, scheme |-> 0, par |-> 0, tsi |-> 1, tick_us |-> 1000000, groups |-> <<>>, fdt_dur |-> Dur(Sc), fdt_cenc |-> 0],
     objs |-> Objs, pkts |-> wire,
     fdts |-> LET ids == SetToSeq(EmittedIds) IN [j \in 1..Len(ids) |-> FdtRec(ids[j])],
     xfers |-> [o \in 1..Len(Objs) |-> Cardinality({i \in 1..Len(wire) : wire[i].k = "obj" /\ wire[i].o = o /\ wire[i].sbn = 0 /\ wire[i].esi = 0})],
@@ -107,7 +114,7 @@ FirstCycleEnd ==   \* late joins are taken inside the first emission of every ob
   LET I == {i \in 1..N0 : wire[i].t > 0} IN IF I = {} THEN N0 ELSE (CHOOSE i \in I : \A j \in I : i <= j) - 1
 Channels == { <<"clean", 0>> } \cup { <<"lose", j>> : j \in 1..N0 } \cup { <<"swap", j>> : j \in 1..(N0 - 1) }
             \cup { <<"dup", j>> : j \in 1..N0 }
-            \cup (IF sc \in {3, 5} THEN { <<"join", k>> : k \in 2..FirstCycleEnd } ELSE {})
+            \cup (IF sc \in {3, 5, 7} THEN { <<"join", k>> : k \in 2..FirstCycleEnd } ELSE {})
 Sched(c) ==
   CASE c[1] = "clean" -> [i \in 1..N0 |-> i]
     [] c[1] = "lose"  -> [i \in 1..(N0 - 1) |-> IF i < c[2] THEN i ELSE i + 1]
@@ -122,13 +129,13 @@ FamOf(c) == IF Removed # {} /\ c[1] \in {"clean", "lose", "dup"} THEN "perms" EL
 RCfg == [once |-> TRUE, expiry |-> TRUE, max_cache |-> -1, max_err |-> 0, obj_to |-> -1, sess_to |-> -1, filtering |-> FALSE,
          variant |-> IF Variant \in SenderVariants THEN "ok" ELSE Variant]
 WScript == [ans |-> <<>>, open_fail |-> <<>>, write_fail |-> <<>>, md5 |-> TRUE]
-MetaOf(o) == LET ob == Objs[o] IN
+MetaOf(o, hint) == LET ob == Objs[o] IN
   [loc |-> ob.loc, clen |-> ob.clen, tlen |-> ob.L, type |-> ob.type, md5 |-> ob.md5, etag |-> ob.etag, cenc |-> ob.cenc, groups |-> ob.groups,
-   E |-> ob.E, scheme |-> ob.scheme, B |-> ob.B, cache |-> <<"hint", 3600>>]
+   E |-> ob.E, scheme |-> ob.scheme, B |-> ob.B, cache |-> <<"hint", hint>>]
 MonCb(c, now) ==
   CASE c.k \in {"sopen", "sclosed"} -> [k |-> c.k, ep |-> 10, tsi |-> 1]
     [] c.k = "fdtrx" -> [k |-> "fdtrx", ep |-> 10, tsi |-> 1, ts |-> now]
-    [] c.k = "new" -> [k |-> "new", w |-> c.w, o |-> c.o, ans |-> c.ans, ep |-> 10, tsi |-> 1, toix |-> "1", ts |-> now, meta |-> MetaOf(c.o)]
+    [] c.k = "new" -> [k |-> "new", w |-> c.w, o |-> c.o, ans |-> c.ans, ep |-> 10, tsi |-> 1, toix |-> "1", ts |-> now, meta |-> MetaOf(c.o, c.hint)]
     [] c.k = "open" -> [k |-> "open", w |-> c.w, res |-> c.res, ts |-> now]
     [] c.k = "write" -> [k |-> "write", w |-> c.w, len |-> c.len, tot |-> c.tot, res |-> c.res, got |-> "g", exp |-> "g"]
     [] c.k = "complete" -> [k |-> "complete", w |-> c.w, tot |-> c.tot, dg |-> "d"]
